@@ -10,6 +10,8 @@ from .. import universal as U
 from ..exact import Unsupported
 from ..storejudge import decode_store, expected_post_codes, in_core_domain, STORE_OPS, init_arguments, as_library_sees, UNDERFLOW_KEY
 
+from ..monitor import CallbackRecorder
+
 ID = 'C04'
 TITLE = 'flags and callbacks exact and sticky'
 RULE = ('write events on core-domain objects (plain values by constructor/call/set_val/indexed assignment; resize as a re-store): status '
@@ -37,8 +39,9 @@ def make_judges(ctx):
     rec = mon.recorder
 
     def has_recorder(obj):
+        # number of recording callbacks registered on the object NOW (the history may have added, removed or replaced some since construction)
         cbs = getattr(obj, 'callbacks', None) or []
-        return sum(1 for c in cbs if c is rec)
+        return sum(1 for c in cbs if isinstance(c, CallbackRecorder))
 
     def judge_write(ev, kind, pre_status, post, over, under, inexact, rank, check_callbacks, alt=None):
         if alt is not None:
@@ -243,7 +246,7 @@ def make_judges(ctx):
 
 def floors(tier):
     cells = [('raised', k, f) for k in ('write', 'indexed', 'constructor', 'resize') for f in _FL] + [('raised', 'constructor_like', 'inaccuracy')]
-    cells += [('callbacks', k) for k in ('write', 'indexed', 'resize')]
+    cells += [('callbacks', k) for k in ('write', 'indexed', 'resize')] + [('callbacks-changed',)]
     cells += [('reset', True), ('propagation', 'binary'), ('propagation', 'function'), ('propagation', 'numpy'), ('propagation', 'method'),
               ('propagation', 'Fxp(x)'), ('propagation', 'Fxp(x, like=)')]
     return cells
@@ -324,7 +327,20 @@ def run_case(case, ctx):
                 out.append(float(v))
             return out
         for step in range(rng.randint(1, 8)):
-            c = rng.choice(['write', 'write', 'write', 'indexed', 'indexed', 'reset', 'resize', 'read', 'write_fxp', 'like_ctor'])
+            c = rng.choice(['write', 'write', 'write', 'indexed', 'indexed', 'reset', 'resize', 'read', 'write_fxp', 'like_ctor', 'callbacks'])
+            if c == 'callbacks':
+                # the registered callbacks change in the middle of the history: one more is appended, one is removed, or the list is replaced;
+                # the next writes must notify exactly the callbacks registered at that time
+                n_rec = sum(1 for cb in x.callbacks if isinstance(cb, CallbackRecorder))
+                how = rng.choice(['add', 'add', 'remove', 'replace'])
+                if how == 'add' and n_rec < 3:
+                    x.callbacks.append(CallbackRecorder(ctx.mon.cb_log))
+                elif how == 'remove' and n_rec > 0:
+                    x.callbacks.remove([cb for cb in x.callbacks if isinstance(cb, CallbackRecorder)][-1])
+                else:
+                    x.callbacks = [CallbackRecorder(ctx.mon.cb_log)]
+                ctx.floor_hit(('callbacks-changed',))
+                c = 'write'
             if c == 'write_fxp':
                 # a write whose value is another (exact, fitting) Fxp must not clear a raised flag either
                 lo_, hi_ = R.code_range(x.signed, x.n_word)
